@@ -86,6 +86,15 @@ class PbnParser(Parser):
 
     TAG_PATTERN = r'\[[ ]?([A-Z][a-zA-Z]+) "([^"]*)"[ ]?\]'
     REPLACE_PATTERN = r'[ \t\r\n]+'
+    QUOTED_OR_SPACE_PATTERN = r'"[^"]*"|[ \t\r\n]+'
+
+    @staticmethod
+    def _normalize_white_space(match) -> str:
+        token = match.group(0)
+        if token[0] == '"':
+            # Spaces in a tag value are kept as they are.
+            return re.sub(r'[\t\r\n]+', ' ', token)
+        return ' '
 
     # TODO: This method only parses tag pairs.
     #  Add a function to parse optional annotations such as auction and play.
@@ -95,7 +104,8 @@ class PbnParser(Parser):
         :return: Dict converted from tag pairs.
         """
         string = ''.join(self.tag_pair_buffer)
-        string = re.sub(self.REPLACE_PATTERN, ' ', string)
+        string = re.sub(self.QUOTED_OR_SPACE_PATTERN,
+                        self._normalize_white_space, string)
         tag_pairs = re.findall(self.TAG_PATTERN, string, )
 
         game_mem = dict()
